@@ -17,6 +17,7 @@
 
 #include <algorithm>
 #include <map>
+#include <set>
 #include <optional>
 #include <stdexcept>
 
@@ -38,7 +39,8 @@ namespace
     {
         std::int64_t start{1}, end{10};
         std::int64_t body{0}, p1{0}, p2{0};
-        std::int64_t ndict{1}, bcast{0}, usekey{0}, capture{0}, nested{0};
+        std::int64_t ndict{1}, bcast{0}, usekey{0}, capture{0}, nested{0}, shape{0};
+        std::set<std::int64_t> seen_valid;   // TSL sink: indices that have been valid before
         DictScript   dict[2];
         IntScript    bc;
         hgv::Out    *out{nullptr};
@@ -179,6 +181,89 @@ namespace
         }
     }
 
+    struct Add3
+    {
+        static constexpr auto name = "hgv_add3";
+        static void eval(In<"a", TS<Int>> a, In<"b", TS<Int>> b, In<"c", TS<Int>> c, Out<TS<Int>> out)
+        {
+            out.set(a.value() + b.value() + c.value());
+        }
+    };
+
+    // argument orders: X = element of the key-owning dictionary, Y = element of the second dictionary, B = broadcast
+    Port<TS<Int>> mix(Wiring &w, std::optional<Port<TS<Int>>> key, Port<TS<Int>> x)
+    {
+        if (!key) { return x; }
+        wire<KeyProbe>(w, *key);
+        return wire<KeyMix>(w, *key, x);
+    }
+    template <int I> struct BodyXYB
+    {
+        static constexpr auto name = "hgv_body_xyb";
+        static Port<TS<Int>>  compose(Wiring &w, Port<TS<Int>> x, Port<TS<Int>> y, Port<TS<Int>> b)
+        { return body_chain(w, wire<Add3>(w, x, y, b)); }
+    };
+    template <int I> struct BodyXYBK
+    {
+        static constexpr auto name = "hgv_body_xyb_k";
+        static Port<TS<Int>>  compose(Wiring &w, NamedPort<"key", TS<Int>> key, Port<TS<Int>> x, Port<TS<Int>> y, Port<TS<Int>> b)
+        { return body_chain(w, wire<Add3>(w, mix(w, Port<TS<Int>>{key}, x), y, b)); }
+    };
+    template <int I> struct BodyBX
+    {
+        static constexpr auto name = "hgv_body_bx";
+        static Port<TS<Int>>  compose(Wiring &w, Port<TS<Int>> b, Port<TS<Int>> x) { return body_chain(w, wire<Add2>(w, x, b)); }
+    };
+    template <int I> struct BodyBXK
+    {
+        static constexpr auto name = "hgv_body_bx_k";
+        static Port<TS<Int>>  compose(Wiring &w, NamedPort<"key", TS<Int>> key, Port<TS<Int>> b, Port<TS<Int>> x)
+        { return body_chain(w, wire<Add2>(w, mix(w, Port<TS<Int>>{key}, x), b)); }
+    };
+    template <int I> struct BodyBXY
+    {
+        static constexpr auto name = "hgv_body_bxy";
+        static Port<TS<Int>>  compose(Wiring &w, Port<TS<Int>> b, Port<TS<Int>> x, Port<TS<Int>> y)
+        { return body_chain(w, wire<Add3>(w, x, y, b)); }
+    };
+    template <int I> struct BodyBXYK
+    {
+        static constexpr auto name = "hgv_body_bxy_k";
+        static Port<TS<Int>>  compose(Wiring &w, NamedPort<"key", TS<Int>> key, Port<TS<Int>> b, Port<TS<Int>> x, Port<TS<Int>> y)
+        { return body_chain(w, wire<Add3>(w, mix(w, Port<TS<Int>>{key}, x), y, b)); }
+    };
+    template <int I> struct BodyBYX
+    {
+        static constexpr auto name = "hgv_body_byx";
+        static Port<TS<Int>>  compose(Wiring &w, Port<TS<Int>> b, Port<TS<Int>> y, Port<TS<Int>> x)
+        { return body_chain(w, wire<Add3>(w, x, y, b)); }
+    };
+    template <int I> struct BodyBYXK
+    {
+        static constexpr auto name = "hgv_body_byx_k";
+        static Port<TS<Int>>  compose(Wiring &w, NamedPort<"key", TS<Int>> key, Port<TS<Int>> b, Port<TS<Int>> y, Port<TS<Int>> x)
+        { return body_chain(w, wire<Add3>(w, mix(w, Port<TS<Int>>{key}, x), y, b)); }
+    };
+    // list maps consume the index when the first parameter is named "ndx"
+    template <int I> struct BodyL1K
+    {
+        static constexpr auto name = "hgv_body_l1k";
+        static Port<TS<Int>>  compose(Wiring &w, NamedPort<"ndx", TS<Int>> ndx, Port<TS<Int>> x)
+        { return body_chain(w, mix(w, Port<TS<Int>>{ndx}, x)); }
+    };
+    template <int I> struct BodyL2K
+    {
+        static constexpr auto name = "hgv_body_l2k";
+        static Port<TS<Int>>  compose(Wiring &w, NamedPort<"ndx", TS<Int>> ndx, Port<TS<Int>> x, Port<TS<Int>> y)
+        { return body_chain(w, wire<Add2>(w, mix(w, Port<TS<Int>>{ndx}, x), y)); }
+    };
+    template <int I> struct BodyL3K
+    {
+        static constexpr auto name = "hgv_body_l3k";
+        static Port<TS<Int>>  compose(Wiring &w, NamedPort<"ndx", TS<Int>> ndx, Port<TS<Int>> x, Port<TS<Int>> y, Port<TS<Int>> b)
+        { return body_chain(w, wire<Add3>(w, mix(w, Port<TS<Int>>{ndx}, x), y, b)); }
+    };
+
     template <int I> struct Body1
     {
         static constexpr auto name = "hgv_body1";
@@ -303,13 +388,71 @@ namespace
         static constexpr auto name = "hgv_errsink";
         static void eval(DateTime now, In<"e", TSD<Int, TS<NodeError>>, InputValidity::Unchecked> e)
         {
-            std::vector<std::int64_t> keys;
+            // every tick of the error dictionary is reported, also one with an empty delta
+            std::vector<std::int64_t> keys, removed;
             for (const auto &[k, v] : e.modified_items()) { (void)v; keys.push_back(k.template checked_as<Int>()); }
+            for (const auto &[k, v] : e.removed_items()) { (void)v; removed.push_back(k.template checked_as<Int>()); }
             std::sort(keys.begin(), keys.end());
-            if (keys.empty()) { return; }
+            std::sort(removed.begin(), removed.end());
             Line l{37, us(now)};
             for (auto k : keys) { l.push_back(k); }
             G->sink_lines.push_back(l);
+            Line r{38, us(now)};
+            for (auto k : removed) { r.push_back(k); }
+            G->sink_lines.push_back(r);
+        }
+    };
+
+    // ------------------------------------------------------------------ dynamic lists (map_ over TSL, index = key)
+    struct ListSrc
+    {
+        static constexpr auto name              = "hgv_list_src";
+        static constexpr bool schedule_on_start = true;
+        static void eval(DateTime now, NodeScheduler sched, Scalar<"idx", Int> idx, Out<TSL<TS<Int>>> out)
+        {
+            const DictScript &s  = G->dict[idx.value()];
+            auto              it = s.find(us(now));
+            if (it != s.end())
+            {
+                for (const DictOp &op : it->second)
+                {
+                    if (op.code == 1) { out.set(static_cast<std::size_t>(op.key), Int{op.val}); }
+                }
+            }
+            auto nx = s.upper_bound(us(now));
+            if (nx != s.end()) { sched.schedule(dt(nx->first)); }
+        }
+    };
+
+    struct RecSinkL
+    {
+        static constexpr auto name = "hgv_rec_list";
+        static void eval(DateTime now, In<"l", TSL<TS<Int>>, InputValidity::Unchecked> l)
+        {
+            const std::int64_t t = us(now);
+            Line m{32, t}, a{34, t}, lv{35, t}, ad{36, t};
+            for (std::size_t i = 0; i < l.size(); ++i)
+            {
+                auto child = l[i];
+                lv.push_back((std::int64_t)i);
+                if (!child.valid()) { continue; }
+                a.push_back((std::int64_t)i);
+                a.push_back(child.value());
+                if (child.modified())
+                {
+                    m.push_back((std::int64_t)i);
+                    m.push_back(child.value());
+                }
+                if (G->seen_valid.insert((std::int64_t)i).second) { ad.push_back((std::int64_t)i); }
+            }
+            auto &L = G->sink_lines;
+            L.push_back(Line{30, t});
+            L.push_back(Line{31, t});
+            L.push_back(m);
+            L.push_back(Line{33, t});
+            L.push_back(a);
+            L.push_back(lv);
+            L.push_back(ad);
         }
     };
 
@@ -335,54 +478,8 @@ namespace
         }
     };
 
-    void run_case(const hgv::Case &c, hgv::Out &out)
+    void run_graph(Ctx &ctx, hgv::Out &out, Wiring w)
     {
-        Ctx ctx;
-        ctx.out = &out;
-        G       = &ctx;
-        for (const Line &l : c)
-        {
-            if (l[0] == 1) { ctx.start = l[1]; ctx.end = l[2]; }
-            else if (l[0] == 2)
-            {
-                ctx.body = l[1]; ctx.p1 = l[2]; ctx.p2 = l[3];
-                ctx.ndict = l[4]; ctx.bcast = l[5]; ctx.usekey = l[6]; ctx.capture = l[7];
-            }
-            else if (l[0] == 3) { ctx.dict[l[1]][l[2]].push_back({l[3], l[4], l[5]}); }
-            else if (l[0] == 4) { ctx.bc[l[1]] = l[2]; }
-        }
-        try
-        {
-            Wiring w;
-            auto   d0 = wire<DictSrc>(w, Int{0});
-            Port<TSD<Int, TS<Int>>> mapped = [&] {
-                if (ctx.body == 6)
-                {
-                    auto d1 = wire<DictSrc>(w, Int{1});
-                    return ctx.usekey ? wire<stdlib::map_>(w, fn<BodyNestedK<0>>(), d0, stdlib::pass_through(d1)).as<TSD<Int, TS<Int>>>()
-                                      : wire<stdlib::map_>(w, fn<BodyNested<0>>(), d0, stdlib::pass_through(d1)).as<TSD<Int, TS<Int>>>();
-                }
-                if (ctx.ndict == 2 || ctx.bcast)
-                {
-                    if (ctx.ndict == 2)
-                    {
-                        auto d1 = wire<DictSrc>(w, Int{1});
-                        return ctx.usekey ? wire<stdlib::map_>(w, fn<Body2K<0>>(), d0, d1).as<TSD<Int, TS<Int>>>()
-                                          : wire<stdlib::map_>(w, fn<Body2<0>>(), d0, d1).as<TSD<Int, TS<Int>>>();
-                    }
-                    auto b = wire<IntSrc>(w);
-                    return ctx.usekey ? wire<stdlib::map_>(w, fn<Body2K<0>>(), d0, b).as<TSD<Int, TS<Int>>>()
-                                      : wire<stdlib::map_>(w, fn<Body2<0>>(), d0, b).as<TSD<Int, TS<Int>>>();
-                }
-                return ctx.usekey ? wire<stdlib::map_>(w, fn<Body1K<0>>(), d0).as<TSD<Int, TS<Int>>>()
-                                  : wire<stdlib::map_>(w, fn<Body1<0>>(), d0).as<TSD<Int, TS<Int>>>();
-            }();
-            wire<RecSink>(w, mapped);
-            if (ctx.capture)
-            {
-                Port<TSD<Int, TS<NodeError>>> errors = exception_time_series(mapped);
-                wire<ErrSink>(w, errors);
-            }
             GraphBuilder gb = std::move(w).finish();
 
             Obs                  obs;
@@ -412,6 +509,127 @@ namespace
                     out.line(l);
                 }
             }
+        }
+
+    void run_case(const hgv::Case &c, hgv::Out &out)
+    {
+        Ctx ctx;
+        ctx.out = &out;
+        G       = &ctx;
+        for (const Line &l : c)
+        {
+            if (l[0] == 1) { ctx.start = l[1]; ctx.end = l[2]; }
+            else if (l[0] == 2)
+            {
+                ctx.body = l[1]; ctx.p1 = l[2]; ctx.p2 = l[3];
+                ctx.ndict = l[4]; ctx.bcast = l[5]; ctx.usekey = l[6]; ctx.capture = l[7];
+                ctx.shape = l.size() > 8 ? l[8] : 0;
+            }
+            else if (l[0] == 3) { ctx.dict[l[1]][l[2]].push_back({l[3], l[4], l[5]}); }
+            else if (l[0] == 4) { ctx.bc[l[1]] = l[2]; }
+        }
+        try
+        {
+            Wiring w;
+            if (ctx.shape == 5)
+            {
+                // map_ over dynamic lists: the index is the key
+                using L = TSL<TS<Int>>;
+                auto l0 = wire<ListSrc>(w, Int{0});
+                Port<L> mapped = [&] {
+                    if (ctx.ndict == 2)
+                    {
+                        auto l1 = wire<ListSrc>(w, Int{1});
+                        if (ctx.bcast)
+                        {
+                            auto b = wire<IntSrc>(w);
+                            return ctx.usekey ? wire<stdlib::map_>(w, fn<BodyL3K<0>>(), l0, l1, b).as<L>()
+                                              : wire<stdlib::map_>(w, fn<BodyXYB<0>>(), l0, l1, b).as<L>();
+                        }
+                        return ctx.usekey ? wire<stdlib::map_>(w, fn<BodyL2K<0>>(), l0, l1).as<L>()
+                                          : wire<stdlib::map_>(w, fn<Body2<0>>(), l0, l1).as<L>();
+                    }
+                    if (ctx.bcast)
+                    {
+                        auto b = wire<IntSrc>(w);
+                        return ctx.usekey ? wire<stdlib::map_>(w, fn<BodyL2K<0>>(), l0, b).as<L>()
+                                          : wire<stdlib::map_>(w, fn<Body2<0>>(), l0, b).as<L>();
+                    }
+                    return ctx.usekey ? wire<stdlib::map_>(w, fn<BodyL1K<0>>(), l0).as<L>()
+                                      : wire<stdlib::map_>(w, fn<Body1<0>>(), l0).as<L>();
+                }();
+                wire<RecSinkL>(w, mapped);
+                run_graph(ctx, out, std::move(w));
+                G = nullptr;
+                return;
+            }
+            auto   d0 = wire<DictSrc>(w, Int{0});
+            using D = TSD<Int, TS<Int>>;
+            Port<TSD<Int, TS<Int>>> mapped = [&] {
+                if (ctx.shape >= 1 && ctx.shape <= 3)
+                {
+                    // the second dictionary is de-multiplexed but contributes no keys: no_key(d1)
+                    auto d1 = wire<DictSrc>(w, Int{1});
+                    if (ctx.shape == 1 && !ctx.bcast)
+                    {
+                        return ctx.usekey ? wire<stdlib::map_>(w, fn<Body2K<0>>(), d0, stdlib::no_key(d1)).as<D>()
+                                          : wire<stdlib::map_>(w, fn<Body2<0>>(), d0, stdlib::no_key(d1)).as<D>();
+                    }
+                    auto b = wire<IntSrc>(w);
+                    if (ctx.shape == 1)
+                    {
+                        return ctx.usekey ? wire<stdlib::map_>(w, fn<BodyXYBK<0>>(), d0, stdlib::no_key(d1), b).as<D>()
+                                          : wire<stdlib::map_>(w, fn<BodyXYB<0>>(), d0, stdlib::no_key(d1), b).as<D>();
+                    }
+                    if (ctx.shape == 2)
+                    {
+                        return ctx.usekey ? wire<stdlib::map_>(w, fn<BodyBXYK<0>>(), b, d0, stdlib::no_key(d1)).as<D>()
+                                          : wire<stdlib::map_>(w, fn<BodyBXY<0>>(), b, d0, stdlib::no_key(d1)).as<D>();
+                    }
+                    return ctx.usekey ? wire<stdlib::map_>(w, fn<BodyBYXK<0>>(), b, stdlib::no_key(d1), d0).as<D>()
+                                      : wire<stdlib::map_>(w, fn<BodyBYX<0>>(), b, stdlib::no_key(d1), d0).as<D>();
+                }
+                if (ctx.shape == 4)
+                {
+                    // the broadcast argument in front of the multiplexed dictionaries
+                    auto b = wire<IntSrc>(w);
+                    if (ctx.ndict == 2)
+                    {
+                        auto d1 = wire<DictSrc>(w, Int{1});
+                        return ctx.usekey ? wire<stdlib::map_>(w, fn<BodyBXYK<0>>(), b, d0, d1).as<D>()
+                                          : wire<stdlib::map_>(w, fn<BodyBXY<0>>(), b, d0, d1).as<D>();
+                    }
+                    return ctx.usekey ? wire<stdlib::map_>(w, fn<BodyBXK<0>>(), b, d0).as<D>()
+                                      : wire<stdlib::map_>(w, fn<BodyBX<0>>(), b, d0).as<D>();
+                }
+                if (ctx.body == 6)
+                {
+                    auto d1 = wire<DictSrc>(w, Int{1});
+                    return ctx.usekey ? wire<stdlib::map_>(w, fn<BodyNestedK<0>>(), d0, stdlib::pass_through(d1)).as<TSD<Int, TS<Int>>>()
+                                      : wire<stdlib::map_>(w, fn<BodyNested<0>>(), d0, stdlib::pass_through(d1)).as<TSD<Int, TS<Int>>>();
+                }
+                if (ctx.ndict == 2 || ctx.bcast)
+                {
+                    if (ctx.ndict == 2)
+                    {
+                        auto d1 = wire<DictSrc>(w, Int{1});
+                        return ctx.usekey ? wire<stdlib::map_>(w, fn<Body2K<0>>(), d0, d1).as<TSD<Int, TS<Int>>>()
+                                          : wire<stdlib::map_>(w, fn<Body2<0>>(), d0, d1).as<TSD<Int, TS<Int>>>();
+                    }
+                    auto b = wire<IntSrc>(w);
+                    return ctx.usekey ? wire<stdlib::map_>(w, fn<Body2K<0>>(), d0, b).as<TSD<Int, TS<Int>>>()
+                                      : wire<stdlib::map_>(w, fn<Body2<0>>(), d0, b).as<TSD<Int, TS<Int>>>();
+                }
+                return ctx.usekey ? wire<stdlib::map_>(w, fn<Body1K<0>>(), d0).as<TSD<Int, TS<Int>>>()
+                                  : wire<stdlib::map_>(w, fn<Body1<0>>(), d0).as<TSD<Int, TS<Int>>>();
+            }();
+            wire<RecSink>(w, mapped);
+            if (ctx.capture)
+            {
+                Port<TSD<Int, TS<NodeError>>> errors = exception_time_series(mapped);
+                wire<ErrSink>(w, errors);
+            }
+            run_graph(ctx, out, std::move(w));
         }
         catch (const std::exception &e)
         {
